@@ -573,6 +573,36 @@ def case_conjunction(mon, seedval):
                    "functional_at_n": float(Pl(nl)) if inside else None})
 
 
+def case_narrow(mon, xs, ys, seedval):
+    """Limits that are close together but not equal (further apart than ten
+    times the object's tolerance, at any size of abscissa) are not refused as
+    "equal": that refusal is documented for xl == xh only."""
+    from pymeeus.Interpolation import Interpolation as I
+    rng = random.Random(seedval)
+    sx = sorted(xs)
+    itp = I(list(xs), list(ys))
+    for _ in range(6):
+        mon.evals += 1
+        c = rng.uniform(sx[0], sx[-1])
+        w = max(abs(c), 1.0) * 10.0 ** rng.uniform(-10.5, -4) + 1e-9
+        xl, xh = c - w, c + w
+        if xl < sx[0] or xh > sx[-1]:
+            continue
+        for f in (itp.root, itp.minmax):
+            try:
+                f(xl, xh)
+            except ValueError as ex:
+                mon.check("refuse.equal-limits-only-when-equal",
+                          "equal" not in str(ex),
+                          lambda: {"x": xs, "y": ys, "xl": xl, "xh": xh,
+                                   "width": xh - xl, "raised": repr(ex)})
+                continue
+            except Exception:
+                continue
+            mon.ok("refuse.equal-limits-only-when-equal")
+    mon.cls("narrow-limits", ("narrow", seedval))
+
+
 def case_objhistory(mon, seedval):
     """One Interpolation object through a random sequence of loads (every
     documented form of set()) and queries; after every load all its answers
@@ -670,7 +700,8 @@ def case_objhistory(mon, seedval):
 
 
 CASES = {"table": case_table, "root": case_root,
-         "conjunction": case_conjunction, "objhistory": case_objhistory}
+         "conjunction": case_conjunction, "objhistory": case_objhistory,
+         "narrow": case_narrow}
 
 
 def directed(mon):
@@ -722,6 +753,11 @@ def run(mon, spec):
         sv = rng.randrange(1 << 30)
         mon.begin("objhistory", [sv])
         case_objhistory(mon, sv)
+    for _ in range(max(20, spec["n_tab"] // 4)):
+        xs, ys, kind = gen_table(rng, for_roots=True)
+        sv = rng.randrange(1 << 30)
+        mon.begin("narrow", [xs, ys, sv])
+        case_narrow(mon, xs, ys, sv)
     for _ in range(spec["n_root"]):
         xs, ys, kind = gen_table(rng, for_roots=True)
         sx = sorted(xs)
